@@ -122,8 +122,8 @@ func buildReport(eng *Engine, ps *PropSpec, vcs []*VC, obls []*Obligation, funcs
 	}
 	ev.Coverage["unreachable_returns"] = deadNames
 	sort.Slice(slowest, func(i, j int) bool { return slowest[i].Ms > slowest[j].Ms })
-	if len(slowest) > 5 {
-		slowest = slowest[:5]
+	if len(slowest) > 12 {
+		slowest = slowest[:12]
 	}
 	var fns []string
 	for _, k := range funcs {
